@@ -3,7 +3,7 @@
 (* C04: enumeration of ClientHello messages with the JA4 parts Ja4.tla     *)
 (* assigns; checks on the definition that the sorted parts are invariant   *)
 (* under permutation and GREASE insertion while the original-order parts   *)
-(* follow the order.  Families: ver, presence, perm, grease, sizes, misc, embed.  *)
+(* follow the order.  Families: ver, presence, perm, grease, sizes, misc, embed, alpn, lookalike.  *)
 (***************************************************************************)
 EXTENDS Ja4, Json, IOUtils, TLC
 
@@ -71,7 +71,24 @@ RecLike == <<22, 3, 1, 0, 20, 1, 0, 0, 16, 3, 3>> \o Rep(7, 21)
 EmbedCases == {[Base EXCEPT !.sid = s, !.exts = <<Sni(Host), RawB(35, b), Sv(<<772, 771>>), AlpnE(<<H2>>)>>] :
                  s \in {<<>>, RecLike}, b \in {<<22, 3, 3, 0, 2, 1, 0>>, Wire(Decoy), <<23, 3, 3, 0, 4, 1, 2, 3, 4>> \o Wire(Decoy)}}
 
-Cases == CASE Fam = "embed" -> EmbedCases [] Fam = "ver" -> VerCases [] Fam = "presence" -> PresenceCases [] Fam = "perm" -> PermCases
+\* ---- alpn: first and last character of the FIRST protocol (alphanumeric first and last bytes, two characters or more:
+\* the cases every edition of the specification agrees on), whatever follows in the list and wherever the extension sits
+Str2B(s) == [i \in 1..Len(s) |-> LET c == SubSeq(s, i, i) IN
+               IF \E k \in 1..26 : SubSeq("abcdefghijklmnopqrstuvwxyz", k, k) = c THEN 96 + (CHOOSE k \in 1..26 : SubSeq("abcdefghijklmnopqrstuvwxyz", k, k) = c)
+               ELSE IF \E k \in 1..26 : SubSeq("ABCDEFGHIJKLMNOPQRSTUVWXYZ", k, k) = c THEN 64 + (CHOOSE k \in 1..26 : SubSeq("ABCDEFGHIJKLMNOPQRSTUVWXYZ", k, k) = c)
+               ELSE IF \E k \in 1..10 : SubSeq("0123456789", k, k) = c THEN 47 + (CHOOSE k \in 1..10 : SubSeq("0123456789", k, k) = c)
+               ELSE IF c = "/" THEN 47 ELSE IF c = "." THEN 46 ELSE 45]
+AlpnLists == {<<Str2B("h2")>>, <<Str2B("h3")>>, <<Str2B("http/1.1"), Str2B("h2")>>, <<Str2B("h2"), Str2B("http/1.1")>>, <<Str2B("spdy/3.1"), Str2B("x")>>, <<Str2B("dot")>>,
+              <<Str2B("acme-tls/1")>>, <<Str2B("Ab"), Str2B("zz")>>, <<Str2B("imap"), Str2B("pop3"), Str2B("h2")>>, <<Str2B("0z")>>, <<Str2B("h2c")>>}
+AlpnCases == {[Base EXCEPT !.exts = IF front THEN <<AlpnE(ap), Sni(Host), Sv(<<772>>)>> ELSE <<Sni(Host), Sa(<<1027>>), AlpnE(ap)>>] : ap \in AlpnLists, front \in BOOLEAN}
+
+\* ---- lookalike: code points that resemble GREASE (low nibbles a, or equal bytes) but are not among the 16 values of RFC 8701:
+\* they are ordinary values and stay in every list and count
+Look == <<6698, 2586, 23146, 64251, 2827, 41120, 2571>>       \* 1a2a 0a1a 5a6a fafb 0b0b a0a0 0a0b
+LookCases == {[Base EXCEPT !.ciphers = <<4865, Look[i], 4866, G1, Look[j]>>, !.exts = <<Sni(Host), Sa(<<1027, Look[j], G2, 2052>>), Groups(<<29, Look[i]>>), Sv(<<772, Look[i]>>)>>] : i \in 1..7, j \in {1, 3, 6}}
+             \cup {[Base EXCEPT !.exts = <<Sni(Host), Raw(Look[i]), Sv(<<772>>)>>] : i \in 1..7}
+
+Cases == CASE Fam = "lookalike" -> LookCases [] Fam = "alpn" -> AlpnCases [] Fam = "embed" -> EmbedCases [] Fam = "ver" -> VerCases [] Fam = "presence" -> PresenceCases [] Fam = "perm" -> PermCases
            [] Fam = "grease" -> GreaseCases [] Fam = "sizes" -> SizeCases [] Fam = "misc" -> MiscCases
 CaseSeq == SetToSeq(Cases)
 
